@@ -311,6 +311,9 @@ class MHLHistory:
         """traverses the whole file system tree inside the history to find all sub histories"""
         history_root = self.get_root_path()
         for root, directories, _ in os.walk(history_root):
+            # visit sub folders in a defined order so the order of child histories (and with it the order of the
+            # references written into new generations) does not depend on how the file system lists them
+            directories.sort()
             if root != history_root and ascmhl_folder_name in directories:
                 # we parse the mhl folder and clear the directories so we are not going deeper
                 # everything beneath is handled by the child history
